@@ -203,6 +203,69 @@ def h_isotherm(h, op):
         S.cleanup()
 
 
+def h_delete_by_name(h, fam):
+    """deletion by NAME STRING removes exactly the row of that name - also when the string is an alias (or a case variant of the
+    name) of another item that the session knows"""
+    ps = S.fresh_sqlite_module()
+    from pygaps.core.adsorbate import Adsorbate
+    from pygaps.core.material import Material
+    from pygaps.utilities.exceptions import ParsingError
+    try:
+        cat = catalogue()
+        path = S.new_db()
+        if fam == 'ads':
+            main, other_name = cat[0], 'GA'          # 'GA' is an alias of gasA
+            table = 'adsorbates'
+        else:
+            main, other_name = cat[1], 'MATM'        # a case variant of matM
+            table = 'materials'
+        p_main, p_other = h.flag('named_item_present'), h.flag('item_with_the_alias_as_its_name_present')
+        if p_main:
+            S.raw(path, f'INSERT INTO {table} (name) VALUES (?)', (main.name,))
+        if p_other:
+            S.raw(path, f'INSERT INTO {table} (name) VALUES (?)', (other_name,))
+        in_reg = h.flag('in_registry')
+        pre = S.content(path)
+        with S.registries(mats=[cat[1]] if in_reg else [], adss=[cat[0]] if in_reg else []):
+            try:
+                (ps.adsorbate_delete_db if fam == 'ads' else ps.material_delete_db)(other_name, db_path=path, verbose=False)
+                exc = None
+            except ParsingError as e:
+                exc = S.detach(e)
+        post = S.content(path)
+        cid = f'C08/{fam}/delete-by-name-string'
+        h.claim(f'{cid}/refused-iff-no-row-of-that-name', (exc is not None) == (not p_other), info=f'{exc!r}'[:120])
+        want = copy.deepcopy(pre)
+        want[fam].pop(other_name, None)
+        h.claim(f'{cid}/removes-exactly-the-row-of-that-name', post == want, info=f'before {sorted(pre[fam])[-3:]} after {sorted(post[fam])[-3:]}')
+    finally:
+        S.cleanup()
+
+
+def h_many_isotherms(h, n):
+    """retrieval returns every stored isotherm also across the internal batching of 100 (the bound is read off the code:
+    isotherms_from_db processes the rows in groups of 100)"""
+    ps = S.fresh_sqlite_module()
+    from pygaps.core.baseisotherm import BaseIsotherm
+    try:
+        ads, mat, iso = catalogue()
+        path = S.new_db()
+        reach = h.flag('reach')
+        with S.registries(mats=[mat], adss=[ads]):
+            ps.adsorbate_to_db(ads, db_path=path, verbose=False)
+            ps.material_to_db(mat, db_path=path, verbose=False)
+            isos = [BaseIsotherm(material=mat, adsorbate='gasA', temperature=77.0, **isofix.DEFAULT_UNITS, serial=float(i) + 0.5) for i in range(n)]
+            for i in isos:
+                ps.isotherm_to_db(i, db_path=path, verbose=False)
+            got = ps.isotherms_from_db(db_path=path, verbose=False)
+            some = ps.isotherms_from_db(criteria={'temperature': 77.0}, db_path=path, verbose=False)
+        want = sorted(i.iso_id for i in isos)
+        h.claim(f'C08/isotherm/retrieval/n={n}/all-stored-isotherms-come-back', sorted(g.iso_id for g in got) == want, info=f'{len(got)} of {n}')
+        h.claim(f'C08/isotherm/retrieval/n={n}/criteria-retrieval-complete', sorted(g.iso_id for g in some) == want, info=f'{len(some)} of {n}')
+    finally:
+        S.cleanup()
+
+
 def obligations(tier):
     obs = []
     kw = dict(funcs=FUNCS, stubs=['real sqlite3 scratch files; registries replaced per path'], timeout_s=30, validate=1, max_paths=5000, wall_s=1200)
@@ -213,4 +276,8 @@ def obligations(tier):
         obs.append(Obligation(f'C08/{fam}/delete', h_item, (fam, 'delete', False), bounds='all presence subsets x referenced or not', **kw))
     for op in ('upload', 'delete'):
         obs.append(Obligation(f'C08/isotherm/{op}', h_isotherm, (op,), bounds='all presence subsets x flags x registry membership', **kw))
+    for fam in ('ads', 'mat'):
+        obs.append(Obligation(f'C08/{fam}/delete-by-name-string', h_delete_by_name, (fam,), bounds='presence of the named row / of a row whose name is an alias or case variant x registry membership', **kw))
+    for n in ((101,) if tier == 'quick' else (100, 101, 201)):
+        obs.append(Obligation(f'C08/isotherm/retrieval/n={n}', h_many_isotherms, (n,), bounds=f'{n} metadata-only isotherms (batch size in the code: 100)', **kw))
     return obs
